@@ -13,10 +13,21 @@ MOD = "c02_filters"
 def _install():
     m = types.ModuleType(MOD)
     for nm in ("fa", "fb", "fp", "fq", "fd", "fe"):
-        setattr(m, nm, (lambda tag: (lambda s: "%s(%s)" % (tag, s)))(nm))
+        setattr(m, nm, (lambda tag: (lambda s: "%s(%s)" % (tag, _show(s))))(nm))
     m.fc = lambda pre, post="": (lambda s: "fc[%s|%s|%s]" % (pre, s, post))
     sys.modules[MOD] = m
     return m
+
+
+class Val:
+    """a value that is not a str: whether str() has been applied to it before a filter sees it is observable"""
+
+    def __str__(self):
+        return " <v&> "
+
+
+def _show(s):
+    return s if isinstance(s, str) else "%s:%s" % (type(s).__name__, s)
 
 
 IMPORTS = ["from %s import fa, fb, fp, fq, fd, fe, fc" % MOD]
@@ -55,7 +66,7 @@ def apply_list(names, s):
             post = args[0][1] if len(args[0]) > 1 else args[1].get("post", "")
             s = "fc[%s|%s|%s]" % (pre, s, post)
         elif f in ("fa", "fb", "fp", "fq", "fd", "fe"):
-            s = "%s(%s)" % (f, s)
+            s = "%s(%s)" % (f, _show(s))
         else:
             s = documented(f, s)
     return s
@@ -69,7 +80,10 @@ def expected(value, default_filters, page, local):
         D, P = [], []
     elif "n" in P:
         D = []
-    return str(apply_list(D + P + list(local), value))
+    out = apply_list(D + P + list(local), value)
+    if not isinstance(out, str):
+        return None         # nothing turned the value into text: what is written then is outside the statement
+    return str(out)
 
 
 LOCALS = [[], ["fa"], ["fa", "fb"], ["fb", "fa"], ["n"], ["n", "fa"], ["fa", "n"], ["h"], ["h", "fa"], ["fa", "h"], ["trim", "fa"],
@@ -80,28 +94,35 @@ PAGES = [None, ["fp"], ["fp", "fq"], ["n", "fp"], ["fp", "n"], ["n"], ["h"]]
 VALUE = " <a&'\"b>é "
 
 
+_STR_ONLY = ("x", "u", "entity", "trim")
+
+
 def pipeline_cases():
     for d in DEFAULTS:
         for p in PAGES:
             for l in LOCALS:
-                yield d, p, l
+                yield d, p, l, "str"
+                # a non-str value: only where every filter of the pipeline accepts one
+                if not any(f in _STR_ONLY or f.startswith("decode.") for f in l + (p or []) + (d or [])):
+                    yield d, p, l, "obj"
 
 
 def run_pipeline(args):
     from mako.template import Template
     _install()
-    d, p, l = args
+    d, p, l = args[:3]
+    value = VALUE if len(args) < 4 or args[3] == "str" else Val()
     head = '<%%page expression_filter="%s"/>' % ", ".join(p) if p is not None else ""
     src = head + "${v%s}" % ((" | " + ", ".join(l)) if l else "")
     kw = {} if d is None else {"default_filters": d}
     try:
-        out = Template(src, imports=IMPORTS, **kw).render_unicode(v=VALUE)
+        out = Template(src, imports=IMPORTS, **kw).render_unicode(v=value)
     except Exception as e:
         out = "EXC %r" % e
-    exp = expected(VALUE, d, p, l)
-    if out == exp:
+    exp = expected(value, d, p, l)
+    if out == exp or exp is None:
         return None
-    return {"template": src, "default_filters": d, "expected": exp, "got": out}
+    return {"template": src, "default_filters": d, "value": "a str" if value is VALUE else "an object whose str() is ' <v&> '", "expected": exp, "got": out}
 
 
 def site_cases():
